@@ -109,6 +109,18 @@ def run_controls(mod, prop, tier, seed):
     # only control mutants are allowed to fail the self-test; other misses are reported as weaknesses
     ctl_names = {m["name"] for m in cat if m.get("control")}
     dead = [r["name"] for r in missed if r["name"] in ctl_names]
-    return {"fired": len(fired), "skipped": len(skipped), "missed": [r["name"] for r in missed], "dead": dead,
-            "applicable": len(results) - len(skipped),
-            "results": [{k: r[k] for k in ("name", "status", "fired", "wall")} for r in results]}
+    out = {"fired": len(fired), "skipped": len(skipped), "missed": [r["name"] for r in missed], "dead": dead,
+           "applicable": len(results) - len(skipped),
+           "results": [{k: r[k] for k in ("name", "status", "fired", "wall")} for r in results]}
+    if tier != "quick":
+        # behaviour-preserving edits: the rules must stay silent (informational self-test of the checker)
+        try:
+            eq = importlib.import_module("mutants_" + prop.lower()).EQUIV
+        except (ImportError, AttributeError):
+            eq = []
+        with ThreadPoolExecutor(max_workers=8) as ex:
+            eres = list(ex.map(lambda m: run_mutant(mod, prop, m, known), eq))
+        out["equivalence_edits"] = {"silent": len([r for r in eres if r["status"] == "missed"]),
+                                    "false_alarms": [{"name": r["name"], "rules": r["fired"]} for r in eres if r["status"] == "fired"],
+                                    "skipped": len([r for r in eres if r["status"] in ("skipped", "compile-error")])}
+    return out
